@@ -23,6 +23,16 @@ CLAIMED = {
    text="Every schedule of every generated program with nested spawns, joins in every order and by non-parents, unjoined threads, scopes (nested, with 1-2 scoped threads), named threads, thread::current(), and three thread-local keys whose destructors log, touch another key, or contain a scheduling point and touch themselves, plus a const-initialised key: closure runs once, join returns the closure's value after all of the child's destructors, scope end waits for scoped threads, per-thread instances, destruction exactly once in initialisation order, AccessError instead of resurrection, ids/names consistent.",
    note="Trusted: the expected thread-local event sequence computed by the monitor from the program text; model for spawn/join/scope. Small-scope hypothesis.",
    design="DESIGN.md §4 C07"),
+ "C16": dict(level="exploration", engine="c16",
+   technique="bounded-exhaustive enumeration of Schedule values and of malformed strings against an independent reference decoder (enumeration of inputs, not sampling)",
+   text="All step sequences over {Task(a),Task(b),Random} up to length 7 (11 thorough) for 9 id pairs at bit-width boundaries, 21 varint-boundary seeds x 128 boundary ids x 7 shapes, 12 patterns x every length 0..400 (1200), each in 6 strict printed forms and up to 8 re-formatted forms; every proper prefix per hex digit up to a bound, header digit substitutions, every wrong magic byte, width fields 0 / >64, length fields beyond the payload: round-trip must be exact; malformed input must give None and never panic/abort (decodes run in supervised child processes).",
+   note="Trusted: the independent reference reader (refdec.rs), cross-checked against layout arithmetic; padding-only truncation is not required to be rejected (statement: 'cut short' = a needed bit is missing).",
+   design="DESIGN.md §4 C16"),
+ "C18": dict(level="model_checking", engine="e2-sem",
+   technique="stateless exhaustive exploration of real BatchSemaphore programs under the explorer-scheduler + explicit-state BFS of a counter+queue model with permit ledger + step-by-step co-simulation; executions the reference model rejects are re-checked against a weakened model that encodes the two recorded findings",
+   text="Every schedule of every generated program over acquire_blocking/try_acquire/release/close/available_permits and manually polled, awaited, cancelled and handed-over Acquire futures, permits 0-1 (0-3 thorough), batch sizes 1-2, both fairness modes, 2-3 tasks, on the real semaphore; co-simulated on the reference model (strict FIFO with grant in the releasing step / bag of waiters), whose ledger invariant avail+acquired+granted = initial+released is asserted in every state.",
+   note="Trusted: the reference model (Appendix A) and, for the two known findings only, the weakened model that describes them precisely (so any other deviation is still a violation). Small-scope hypothesis.",
+   design="DESIGN.md §4 C18"),
 }
 
 REASON_WIP = "check not built yet (work in progress; see DESIGN.md for the plan)"
